@@ -637,3 +637,64 @@ pub fn depth(ctx: &Ctx) {
         ),
     }
 }
+
+/// X5 (thorough): two foreign elements at once - every ordered pair of insertion positions of a
+/// document, the first carrying the local name of the element that follows it (hijack shape),
+/// the second a nested box; names rotate over the list
+pub fn pairs(ctx: &Ctx) {
+    let bk = ctx.pick("base-document", N_BASES);
+    let d = match doc(bk) {
+        Ok(d) => d,
+        Err(e) => {
+            ctx.machinery_error(format!("base document {bk}: {e}"));
+            return;
+        }
+    };
+    let Ok(base_report) = report(&d.bytes) else { return };
+    let n = d.child_positions.len();
+    let i = ctx.pick("first-position", n);
+    ctx.describe(|| format!("base document {bk}: a foreign element at position {i} together with one at every other position"));
+    let (pa, at_a) = d.child_positions[i].clone();
+    // the name of the standard element that follows the first insertion point (if any)
+    let follow: String = d.xml[at_a..].trim_start().strip_prefix('<').map(|r| r.chars().take_while(|c| c.is_ascii_alphanumeric()).collect()).filter(|s: &String| !s.is_empty()).unwrap_or_else(|| "guid".into());
+    for j in 0..n {
+        if j == i {
+            continue;
+        }
+        ctx.evals(1);
+        let (pb, at_b) = d.child_positions[j].clone();
+        let a = shape(&follow, 2);
+        let b = shape(NAMES[(i * 7 + j) % NAMES.len()], 3);
+        let (first, second) = if at_a <= at_b { ((at_a, &a), (at_b, &b)) } else { ((at_b, &b), (at_a, &a)) };
+        let mut nx = String::with_capacity(d.xml.len() + a.len() + b.len());
+        nx.push_str(&d.xml[..first.0]);
+        nx.push_str(first.1);
+        nx.push_str(&d.xml[first.0..second.0]);
+        nx.push_str(second.1);
+        nx.push_str(&d.xml[second.0..]);
+        let bytes = rebuild(&d, &nx);
+        match guarded(|| report(&bytes)) {
+            Err(pi) => {
+                ctx.violation(format!("{P}/panic/{}", pi.class()), format!("reader panicked at {} ({}) with two foreign elements in <{pa}> and <{pb}>", pi.loc, pi.msg));
+                return;
+            }
+            Ok(Err(e)) => {
+                ctx.violation(format!("{P}/foreign-element-breaks-file/pair"), format!("base document {bk}: with {a} in <{pa}> and {b} in <{pb}> the file can no longer be opened: {e}"));
+                return;
+            }
+            Ok(Ok(rp)) => {
+                if rp != base_report {
+                    let k = rp.iter().zip(base_report.iter()).position(|(x, y)| x != y);
+                    let (x, y) = k.map(|k| (rp[k].clone(), base_report[k].clone())).unwrap_or_default();
+                    ctx.violation(
+                        format!("{P}/foreign-element-alters-report/pair/{pa}/{pb}"),
+                        format!("base document {bk}: {a} in <{pa}> together with {b} in <{pb}> changes the report: now {} | before {}", x.chars().take(300).collect::<String>(), y.chars().take(300).collect::<String>()),
+                    );
+                    return;
+                }
+            }
+        }
+    }
+    ctx.observe_u64((bk * 100000 + i) as u64);
+    ctx.nontrivial();
+}
